@@ -106,7 +106,7 @@ def main():
                 lines.append("UNCONFIRMED-CEX harness=%s obligation=%s at %s" % (h.name, fe["description"], fe["location"]))
         elif r.status == "inconclusive":
             inconclusive.append(r)
-            lines.append("INCONCLUSIVE harness=%s %s" % (h.name, r.detail))
+            lines.append("INCONCLUSIVE harness=%s %s %s" % (h.name, r.detail, "; ".join("%s @%s" % (fe["description"], fe["location"]) for fe in r.failed)))
         elif r.status in ("error", "vacuous"):
             errors.append(r)
             lines.append("MACHINERY-ERROR harness=%s status=%s %s" % (h.name, r.status, r.detail[-1500:]))
